@@ -24,7 +24,18 @@ def edge_property(kind: str, to: str) -> dict[str, Any]:
         return {"oneOf": [ref(to), {"type": "string"}]}
     if kind == "anyOf":
         return {"anyOf": [ref(to), {"type": "string"}]}
+    if kind == "null":
+        return None  # a property left empty in YAML (`metadata:`)
+    if kind == "empty":
+        return {}
+    if kind == "bareobj":
+        return {"type": "object"}
+    if kind == "barearr":
+        return {"type": "array"}
     raise ValueError(kind)
+
+
+SCHEMA_KINDS = ("allOf", "allOfReq", "addl", "alias")
 
 
 def graph_schemas(doc: dict[str, Any]) -> dict[str, Any]:
@@ -37,11 +48,21 @@ def graph_schemas(doc: dict[str, Any]) -> dict[str, Any]:
             schemas[n] = ref(alias[0]["to"])
             continue
         node: dict[str, Any] = {"type": "object", "properties": {"id": {"type": "string"}}, "required": ["id"]}
-        parents = [e["to"] for _, e in mine if e["kind"] == "allOf"]
-        if parents:
-            node["allOf"] = [ref(p) for p in parents]
+        members: list[Any] = []
         for i, e in mine:
-            if e["kind"] in ("allOf", "alias"):
+            if e["kind"] == "allOf":
+                members.append(ref(e["to"]))
+            elif e["kind"] == "allOfReq":
+                # a required-only member listed BEFORE the member that declares the properties
+                tgt_keys = ["id"] + [f"p{k}" for k, x in enumerate(doc["edges"], start=1) if x["from"] == e["to"] and x["kind"] not in SCHEMA_KINDS]
+                members.append({"required": tgt_keys})
+                members.append(ref(e["to"]))
+            elif e["kind"] == "addl":
+                node["additionalProperties"] = ref(e["to"])
+        if members:
+            node["allOf"] = members
+        for i, e in mine:
+            if e["kind"] in SCHEMA_KINDS:
                 continue
             node["properties"][f"p{i}"] = edge_property(e["kind"], e["to"])
             if e.get("req"):
